@@ -1,1 +1,300 @@
-/-! C06 — property theorems (none yet). -/
+import Req.Lemmas.C06Recv
+import Req.Lemmas.C06Acks
+import Req.Lemmas.C06Credit
+import Req.Lemmas.C06Pump
+/-!
+C06 — HTTP/2 connections respect everything the peer advertised: property theorems.
+
+The model (`Req.H2.Conn`) is one `ClientConn` of `internal/http2/transport.go` as a state machine
+over caller operations and peer frames; `Req.H2.Monitor` is the strict peer. `Fixes.all` is the
+code with `fixes/C06-1..4` applied; the counter-example theorems at the end show, for each of
+the four repairs, an input on which the unchanged code fails the monitor (these inputs are the
+directed scripts `caller-max-frame`, `chrome-receive-window`, `prio-even`, `big-headers-*` of the
+script lane, which replays them on the implementation).
+
+Assumptions of the main theorems (all decidable, see the `example`s):
+* `cfg.ok` — the caller's fingerprint advertises legal values (windows ≤ 2^31-1);
+* `Op.ok` — a request has a non-empty header block; the peer's SETTINGS_MAX_FRAME_SIZE is in the
+  legal range (≥ 16384) and WINDOW_UPDATE increments are 31-bit numbers.
+Nothing is assumed about the order or content of the peer's frames otherwise: RST_STREAM, GOAWAY,
+SETTINGS changing windows up and down (negative windows included), WINDOW_UPDATE overflow, DATA
+outside the windows, HEADERS after END_STREAM … are all covered.
+-/
+set_option linter.unusedSimpArgs false
+namespace Req.Props.C06
+open Req.H2 Req.H2.Flow Req.H2.Conn Req.H2.Monitor Req.Lemmas.C06
+
+/-- **conn_conforms**: for every caller fingerprint, every operation list — i.e. every
+interleaving of uploads, downloads, cancellations and peer frames at lock granularity — the
+strict peer accepts every frame the client sends (flow-control windows incl. retroactive
+SETTINGS_INITIAL_WINDOW_SIZE changes, MAX_FRAME_SIZE, MAX_CONCURRENT_STREAMS, odd increasing
+stream ids, contiguous header blocks, nothing but RST_STREAM/WINDOW_UPDATE/PRIORITY on a closed
+stream, legal WINDOW_UPDATEs) and is owed no SETTINGS acknowledgement at the end. -/
+theorem conn_conforms (cfg : Cfg) (hfix : cfg.fixes = Fixes.all) (hcfg : cfg.ok)
+    (ops : List Op) (hops : ∀ op ∈ ops, op.ok) :
+    Monitor (history (run cfg ops)) = true := by
+  unfold history run
+  obtain ⟨m, r, h1, h2, h3, _⟩ := joint_runFrom ops hops (preface_run cfg) (rpreface_run cfg hfix hcfg)
+    (sinv_init cfg hfix) (rinv_init cfg hfix hcfg)
+  unfold Monitor
+  rw [h1, h2]
+  simp [Send.final, h3.pending, h3.hdr]
+
+/-- a default connection, three uploads around the window and frame boundaries, the peer
+changing SETTINGS_INITIAL_WINDOW_SIZE down to a negative window and up again: the hypotheses
+of `conn_conforms` are satisfiable and the run is not trivial (it emits DATA frames) -/
+def exampleCfg : Cfg :=
+  { settings := [], connFlow := 0, prio := [], hdrPrio := false, maxHeaderList := 10485760, strict := false,
+    fixes := Fixes.all }
+
+def exampleOps : List Op :=
+  [.peer (.settings [(sInitialWindowSize, 20000)]), .openStream 40 60000 true, .feed 1 0, .write 1, .feed 1 0, .write 1,
+   .peer (.settings [(sInitialWindowSize, 10000)]), .peer (.windowUpdate 1 9999), .write 1,
+   .peer (.windowUpdate 1 2), .write 1, .peer (.headers 1 false), .peer (.data 1 5000 10 false), .read 1 5000]
+
+example : exampleCfg.fixes = Fixes.all := rfl
+example : exampleCfg.ok := by
+  refine ⟨fun v h => ?_, by decide⟩
+  simp [exampleCfg, lastSetting] at h
+example : ∀ op ∈ exampleOps, op.ok := by
+  intro op h
+  simp only [exampleOps, List.mem_cons, List.mem_nil_iff, or_false] at h
+  rcases h with rfl | rfl | rfl | rfl | rfl | rfl | rfl | rfl | rfl | rfl | rfl | rfl | rfl | rfl <;>
+    simp [Op.ok, PFrame.ok, sInitialWindowSize, sMaxFrameSize]
+/-- the window goes negative (-10000, then -1) and the client sends exactly one byte once it is 1 -/
+example : (history (run exampleCfg exampleOps)).filterMap (fun e => match e with
+    | .c (.data id len _) => some (id, len) | _ => none) = [(1, 16384), (1, 3616), (1, 1)] := by decide
+
+
+/-! ### stream identifiers -/
+
+/-- **stream_ids**: the streams the client has opened (one HEADERS frame each, seen by the
+strict peer in this order: `m.streams`) carry odd, strictly increasing ids — for every
+PRIORITY-frame fingerprint, including even, zero and descending ids. -/
+theorem stream_ids (cfg : Cfg) (hfix : cfg.fixes = Fixes.all) (ops : List Op) (hops : ∀ op ∈ ops, op.ok) :
+    let st := (run cfg ops).1
+    (st.streams.map (·.id)).Pairwise (· < ·) ∧ (∀ s ∈ st.streams, s.id % 2 = 1) ∧
+    ∃ m, Send.run Send.init (history (run cfg ops)) = .ok m ∧
+      m.streams.map (·.id) = st.streams.map (·.id) := by
+  unfold history run
+  obtain ⟨m, h1, h2⟩ := sim_runFrom ops hops (preface_run cfg) (sinv_init cfg hfix)
+  exact ⟨h2.sorted, h2.oddIds, m, h1, rels_ids h2.rel⟩
+
+/-- PRIORITY frames naming streams 9 and 4 (descending, the last one even): requests use 7, 9 -/
+example : ((run { exampleCfg with prio := [9, 4] }
+    [.peer (.settings []), .openStream 30 0 true, .openStream 30 0 true]).1.streams.map (·.id)) = [7, 9] := by decide
+
+/-! ### SETTINGS acknowledgements -/
+
+/-- **settings_acked**: in every run the client has written exactly one SETTINGS acknowledgement
+per SETTINGS frame of the peer (frames that are themselves a protocol violation — an
+INITIAL_WINDOW_SIZE above 2^31-1, answered by closing the connection — excepted), whatever else
+happened in between. -/
+theorem settings_acked (cfg : Cfg) (hfix : cfg.fixes = Fixes.all) (ops : List Op) (hops : ∀ op ∈ ops, op.ok) :
+    ackCount (history (run cfg ops)) = settingsCount (history (run cfg ops)) := by
+  have hrun : run cfg ops = runFrom (newConn cfg).1 ((newConn cfg).2.map Event.c) ops := rfl
+  rw [hrun]
+  unfold history
+  obtain ⟨m, h1, h2⟩ := sim_runFrom ops hops (preface_run cfg) (sinv_init cfg hfix)
+  have := pending_count _ h1
+  simp only [h2.pending, Send.init, List.length_nil] at this
+  omega
+
+example : ackCount (history (run exampleCfg exampleOps)) = 2 := by decide
+
+/-! ### WINDOW_UPDATE overflow -/
+
+/-- **window_update_overflow**: `outflow.add` (the `(sum > n) == (f.n > 0)` test on the wrapped
+`int32` sum) accepts an increment exactly when the true sum stays ≤ 2^31-1, and then stores the
+true sum. -/
+theorem window_update_overflow (w : Int) (inc : Nat) (hw : In32 w) (h1 : 1 ≤ inc) (h2 : inc ≤ 2147483647) :
+    addWindow w inc = if w + inc ≤ 2147483647 then some (w + inc) else none := by
+  rw [addWindow_spec w inc hw (by unfold In32; omega)]
+  unfold In32 at *
+  by_cases h : w + (inc : Int) ≤ 2147483647
+  · have : -2147483648 ≤ w + (inc : Int) ∧ w + (inc : Int) ≤ 2147483647 := by omega
+    simp [h, this]
+  · have : ¬ (-2147483648 ≤ w + (inc : Int) ∧ w + (inc : Int) ≤ 2147483647) := by omega
+    simp [h, this]
+
+example : addWindow 2147418112 65535 = some 2147483647 := by decide
+example : addWindow 2147418113 65535 = none := by decide
+example : addWindow (-5) 2147483647 = some 2147483642 := by decide
+
+/-- on the connection window an overflow closes the connection (FLOW_CONTROL_ERROR), on a stream
+window it resets the stream; no window is changed -/
+theorem window_update_overflow_conn (st : State) (inc : Nat) (hw : In32 st.connOut)
+    (h1 : 1 ≤ inc) (h2 : inc ≤ 2147483647) (hov : st.connOut + inc > 2147483647) :
+    peerWindowUpdate st 0 inc = ({ st with closed := true }, []) := by
+  have hne : ¬ inc = 0 := by omega
+  have : ¬ st.connOut + (inc : Int) ≤ 2147483647 := by omega
+  simp [peerWindowUpdate, hne, window_update_overflow st.connOut inc hw h1 h2, this, connError]
+
+/-! ### receive windows never go negative (the hypothesis of the bridging theorems) -/
+
+/-- **inflow_nonneg**: in every reachable state the connection-level receive window satisfies
+`0 ≤ avail`, `0 ≤ unsent`, `avail + unsent ≤ 2^31-1` — so `inflow.add` cannot overflow and the
+`uint32` conversions in `inflow.take` are exact. -/
+theorem inflow_nonneg (cfg : Cfg) (hfix : cfg.fixes = Fixes.all) (hcfg : cfg.ok)
+    (ops : List Op) (hops : ∀ op ∈ ops, op.ok) :
+    let st := (run cfg ops).1
+    0 ≤ st.connIn.avail ∧ 0 ≤ st.connIn.unsent ∧ st.connIn.avail + st.connIn.unsent ≤ 2147483647 := by
+  unfold run
+  obtain ⟨m, r, _, _, _, h4⟩ := joint_runFrom ops hops (preface_run cfg) (rpreface_run cfg hfix hcfg)
+    (sinv_init cfg hfix) (rinv_init cfg hfix hcfg)
+  exact ⟨h4.connOK.avail, h4.connOK.unsent, h4.connOK.sum⟩
+
+/-! ### credit -/
+
+/-- **credit_conservation**: in every reachable state (unless the model has stopped at a Go
+`panic`, which `inflow.add` reserves for an overflowing window) every byte of receive window the
+client ever advertised is in exactly one place —
+connection level: `avail + unsent + Σ buffered = int32(connFlow) + 65535`;
+per stream whose body has not been closed: `avail + unsent + buffered = the stream's initial window` —
+and nothing is held back (`unsent`) unless it is below `inflowMinRefresh` and below what the peer
+still has. DATA for cancelled, reset and closed streams and all padding is refunded at once. -/
+theorem credit_conservation (cfg : Cfg) (hfix : cfg.fixes = Fixes.all) (ops : List Op) (hops : ∀ op ∈ ops, op.ok) :
+    let st := (run cfg ops).1
+    st.panicked = true ∨
+    (st.connIn.avail + st.connIn.unsent + sumBuffered st.streams = connInflowInit cfg.connFlow ∧
+     Fresh st.connIn ∧
+     ∀ s ∈ st.streams, Fresh s.inflow ∧
+       (s.broken = false → s.inflow.avail + s.inflow.unsent + s.buffered = streamInflow0 cfg)) := by
+  have hrun : run cfg ops = runFrom (newConn cfg).1 ((newConn cfg).2.map Event.c) ops := rfl
+  rw [hrun]
+  have := k_runFrom (T := connInflowInit cfg.connFlow) (S := streamInflow0 cfg) ops hops (preface_run cfg)
+    (sinv_init cfg hfix) (Or.inr (cinv_init cfg))
+  rcases this with ⟨h1, _⟩ | h
+  · exact Or.inl h1
+  · exact Or.inr ⟨h.conn, h.connFresh, fun s hs => ⟨h.strmFresh s hs, h.strm s hs⟩⟩
+
+/-- **no_permanent_stall**: once the caller has consumed (read or closed) everything, the peer
+has connection-level window: more than half of what was advertised — it is never left waiting
+for credit that the client is sitting on. The same holds per stream. -/
+theorem no_permanent_stall (cfg : Cfg) (hfix : cfg.fixes = Fixes.all) (ops : List Op) (hops : ∀ op ∈ ops, op.ok)
+    (hp : (run cfg ops).1.panicked = false) (hz : sumBuffered (run cfg ops).1.streams = 0) :
+    connInflowInit cfg.connFlow < 2 * (run cfg ops).1.connIn.avail ∨
+    (run cfg ops).1.connIn.avail = connInflowInit cfg.connFlow := by
+  rcases credit_conservation cfg hfix ops hops with h | ⟨h1, h2, _⟩
+  · rw [hp] at h; cases h
+  · rw [hz] at h1
+    rcases h2 with h0 | ⟨_, hlt⟩
+    · right; omega
+    · left; omega
+
+theorem no_permanent_stall_stream (cfg : Cfg) (hfix : cfg.fixes = Fixes.all) (ops : List Op)
+    (hops : ∀ op ∈ ops, op.ok) (hp : (run cfg ops).1.panicked = false)
+    (s : Stream) (hs : s ∈ (run cfg ops).1.streams) (hb : s.broken = false) (hz : s.buffered = 0) :
+    streamInflow0 cfg < 2 * s.inflow.avail ∨ s.inflow.avail = streamInflow0 cfg := by
+  rcases credit_conservation cfg hfix ops hops with h | ⟨_, _, h3⟩
+  · rw [hp] at h; cases h
+  · obtain ⟨hf, hc⟩ := h3 s hs
+    have hc' := hc hb
+    rw [hz] at hc'
+    rcases hf with h0 | ⟨_, hlt⟩
+    · right; omega
+    · left; omega
+
+/-- the download of `exampleOps`: 5010 bytes taken from both windows, 5000 buffered, then read -/
+example : (run exampleCfg exampleOps).1.connIn = ⟨1073807359, 0⟩ := by decide
+example : sumBuffered (run exampleCfg exampleOps).1.streams = 0 := by decide
+
+/-! ### what the script lane observes is covered -/
+
+/-- **script_covered**: the pumped execution the deterministic script lane compares with the
+implementation (`scriptStep`: a scripted operation, then all body writers run until they block)
+is the run of the machine on that operation followed by `write` operations — one of the
+operation lists the theorems above quantify over. -/
+theorem script_covered (st : State) (hist : List Event) (op : Op) :
+    ∃ ws : List Op, (∀ o ∈ ws, ∃ id, o = Op.write id) ∧
+      (runFrom st hist (op :: ws)).1 = (scriptStep st op).1 :=
+  pump_is_run st hist op
+
+/-! ### the unchanged code: one counter-example per repair (replayed on the implementation by the
+directed scripts of the script lane) -/
+
+/-- a fingerprint that advertises SETTINGS_MAX_FRAME_SIZE = 1 MiB -/
+def cfgBigFrame (fx : Fixes) : Cfg :=
+  { settings := [(sMaxFrameSize, 1048576), (sInitialWindowSize, 4194304)], connFlow := 0, prio := [],
+    hdrPrio := false, maxHeaderList := 10485760, strict := false, fixes := fx }
+
+def opsUpload : List Op := [.peer (.settings []), .openStream 54 100000 true, .feed 1 0, .write 1]
+
+/-- unchanged code: a peer that advertised nothing receives a 65535-byte DATA frame -/
+theorem caller_max_frame_size_counterexample :
+    Monitor (history (run (cfgBigFrame ⟨false, true, true, true⟩) opsUpload)) = false ∧
+    (history (run (cfgBigFrame ⟨false, true, true, true⟩) opsUpload)).getLast? = some (.c (.data 1 65535 false)) ∧
+    Monitor (history (run (cfgBigFrame Fixes.all) opsUpload)) = true := by decide
+
+/-- a fingerprint that advertises a 6 MiB stream window and 16 MiB frames -/
+def cfgBigWindow (fx : Fixes) : Cfg :=
+  { settings := [(sInitialWindowSize, 6291456), (sMaxFrameSize, 16777215)], connFlow := 15663105, prio := [],
+    hdrPrio := false, maxHeaderList := 10485760, strict := false, fixes := fx }
+
+/-- the peer sends 5 MiB on one stream: inside the 6 MiB it was granted -/
+def opsDownload : List Op :=
+  [.peer (.settings []), .openStream 51 0 true, .peer (.headers 1 false),
+   .peer (.data 1 1048576 0 false), .peer (.data 1 1048576 0 false), .peer (.data 1 1048576 0 false),
+   .peer (.data 1 1048576 0 false), .peer (.data 1 1048576 0 false)]
+
+/-- unchanged code: the client closes the connection (FLOW_CONTROL_ERROR) on a peer that stayed
+inside the advertised window; repaired code: it does not -/
+theorem stream_receive_window_counterexample :
+    (run (cfgBigWindow ⟨true, false, true, true⟩) opsDownload).1.closed = true ∧
+    (run (cfgBigWindow Fixes.all) opsDownload).1.closed = false := by decide
+
+/-- a PRIORITY fingerprint that names an even stream -/
+def cfgPrioEven (fx : Fixes) : Cfg :=
+  { settings := [], connFlow := 0, prio := [2], hdrPrio := false, maxHeaderList := 10485760, strict := false,
+    fixes := fx }
+
+def opsOpen : List Op := [.peer (.settings []), .openStream 51 0 true]
+
+/-- unchanged code: the first request uses stream 4 -/
+theorem even_stream_id_counterexample :
+    Monitor (history (run (cfgPrioEven ⟨true, true, false, true⟩) opsOpen)) = false ∧
+    (history (run (cfgPrioEven ⟨true, true, false, true⟩) opsOpen)).getLast? = some (.c (.headers 4 51 true true)) ∧
+    (history (run (cfgPrioEven Fixes.all) opsOpen)).getLast? = some (.c (.headers 5 51 true true)) := by decide
+
+/-- a header priority (all three browser presets) and a header block of 20000 bytes -/
+def cfgHdrPrio (fx : Fixes) : Cfg :=
+  { settings := [], connFlow := 0, prio := [], hdrPrio := true, maxHeaderList := 10485760, strict := false,
+    fixes := fx }
+
+def opsBigHeaders : List Op := [.peer (.settings []), .openStream 20000 0 true]
+
+/-- unchanged code: a HEADERS frame of 16389 bytes for a peer whose limit is 16384 -/
+theorem headers_priority_frame_size_counterexample :
+    Monitor (history (run (cfgHdrPrio ⟨true, true, true, false⟩) opsBigHeaders)) = false ∧
+    (history (run (cfgHdrPrio ⟨true, true, true, false⟩) opsBigHeaders)).drop 4 =
+      [.c (.headers 1 16389 true false), .c (.continuation 1 3616 true)] ∧
+    (history (run (cfgHdrPrio Fixes.all) opsBigHeaders)).drop 4 =
+      [.c (.headers 1 16384 true false), .c (.continuation 1 3621 true)] := by decide
+
+
+/-! ### below lock granularity: the SETTINGS-acknowledgement race (not repaired, known finding)
+
+`conn_conforms` treats "decide the size of a DATA frame" (`awaitFlowControl`, under `cc.mu`) and
+"write it" (under `cc.wmu`) as one step. The real code releases the lock in between, and
+`processSettings` — which applies the peer's SETTINGS and writes the acknowledgement while
+holding both locks — can run there. The frame then arrives after the acknowledgement although it
+was sized under the old values. The history below is that interleaving: the frame comes from the
+model's own `writeStep`, only its position is later. The strict peer rejects it; the
+race-tolerant reading used to classify this known finding in the monitor lane accepts it. The
+concurrent monitor lane observes this on the implementation (finding `c06-settings-ack-race`). -/
+
+def raceHistory : List Event :=
+  let r := run exampleCfg [.peer (.settings [(sInitialWindowSize, 65535)]), .openStream 40 60000 true, .feed 1 0]
+  match findStream r.1.streams 1 with
+  | none => []
+  | some s =>
+    match writeStep r.1.connOut r.1.maxFrameSize s with
+    | none => []
+    | some (_, _, f) => r.2 ++ [.p (.settings [(sInitialWindowSize, 4096)]), .c .settingsAck, .c f]
+
+theorem settings_ack_race_counterexample :
+    raceHistory.getLast? = some (.c (.data 1 16384 false)) ∧
+    Monitor raceHistory = false ∧
+    (match Tolerant.init.run raceHistory with | .ok _ => true | .error _ => false) = true := by decide
+
+end Req.Props.C06
